@@ -211,9 +211,16 @@ pub fn run_all(cx: &Cx) -> Acc {
             for range in RANGES {
                 for method in ["GET", "HEAD"] {
                     for extra in 0..3 {
-                        let mut req = ReqSpec::get().method(method).with("if-range", &ir);
+                        // If-Range before Range for GET, after it for HEAD (both orders of the two lines)
+                        let mut req = ReqSpec::get().method(method);
+                        if method == "GET" {
+                            req = req.with("if-range", &ir);
+                        }
                         if let Some(r) = range {
                             req = req.with("range", r);
+                        }
+                        if method != "GET" {
+                            req = req.with("if-range", &ir);
                         }
                         match extra {
                             1 => req = req.with("if-none-match", "\"zzz\""),
